@@ -110,7 +110,7 @@ emit("C02", "(* Property C02 - create --project: hypergeometric down-sampling of
  ("weights_sum_to_one", "ProjectP", "project_value_sum_one", "each covered record has total weight one"),
 ])
 
-IMP2 = "From Sfs Require Import Index ArrayM Scalar Spectrum Project Stat IndexP ArrayP MargP FoldP StatDefP StatInvP ViewP."
+IMP2 = "From Sfs Require Import Index ArrayM Scalar Spectrum Project Create Stat IndexP ArrayP MargP FoldP StatDefP StatInvP ViewP CreateP CreateSpecP CreateRelP."
 
 emit("C06", "(* Property C06 - statistics equal their definitions on genotypes and the published estimators. *)", IMP2, [
  ("histogram_lemma", "StatDefP", "hist_sum", "the spectrum produced by create is the histogram of per-site count vectors (C01); a weighted sum over cells is a sum over sites"),
@@ -126,6 +126,7 @@ emit("C06", "(* Property C06 - statistics equal their definitions on genotypes a
  ("f4_is_site_average", "StatDefP", "f4_eq", "f4 = site average of (p1 - p2)(p3 - p4)"),
  ("fst_is_ratio_of_sums", "StatDefP", "fst_eq", "Hudson's Fst = ratio of summed per-site numerators and denominators"),
  ("king_r0_r1_are_genotype_pair_ratios", "StatDefP", "king_r0_r1_eq", "R0, R1, KING = ratios of two-individual genotype-pair counts"),
+ ("created_spectrum_is_histogram", "CreateRelP", "create_is_hist", "the spectrum produced by create IS the histogram of the complete sites' per-population ALT counts (so every statement above about `hist` is a statement about create's output)"),
  ("harmonic_numbers", "StatDefP", "harmonic_is_a_n", "a_n = sum_{i<n} 1/i, b_n = sum_{i<n} 1/i^2"),
  ("S_formula", "StatDefP", "S_formula", "S = sum of the interior entries"),
  ("watterson", "StatDefP", "theta_w_formula", "Watterson (1975): theta_W = S / a_n"),
